@@ -184,6 +184,11 @@ def _public_sut_names(module: object, module_alias: str) -> list[str]:
     re-execution namespace binds the same names, so statements that call a function by its
     bare imported name (as LLM-generated tests do) resolve instead of raising ``NameError``.
 
+    Functions named ``test*`` and classes named ``Test*`` are left out as well: pytest
+    collects every such object it finds in the namespace of a test module, so importing
+    them by name would make it run (and fail on) parts of the module under test. They stay
+    reachable through the module alias.
+
     Args:
         module: The imported SUT module.
         module_alias: The alias the SUT module is imported under.
@@ -191,7 +196,28 @@ def _public_sut_names(module: object, module_alias: str) -> list[str]:
     Returns:
         The sorted list of public names.
     """
-    return sorted(name for name in dir(module) if not name.startswith("_") and name != module_alias)
+    return sorted(
+        name
+        for name in dir(module)
+        if not name.startswith("_")
+        and name != module_alias
+        and not _is_collected_by_pytest(name, getattr(module, name, None))
+    )
+
+
+def _is_collected_by_pytest(name: str, obj: object) -> bool:
+    """Check whether pytest's default collection rules would treat ``obj`` as a test.
+
+    Args:
+        name: The name the object is bound to.
+        obj: The object.
+
+    Returns:
+        True for functions named ``test*`` and classes named ``Test*``.
+    """
+    if isinstance(obj, type):
+        return name.startswith("Test")
+    return name.startswith("test") and callable(obj)
 
 
 def _is_expected_exception(stmt: Statement, exc_type: type[BaseException]) -> bool:
